@@ -88,6 +88,11 @@ T("np.concatenate", "tuple3|(2,)(3,)(1,)", lambda a, b, c: np.concatenate((a, b,
 join("np.stack", np.stack, [(3,), (2, 3), ()], [(3,), (2, 3), ()], kws=({}, {"axis": -1}))
 join("np.stack", np.stack, [(2, 3)], [(2, 3)], kws=({"axis": 1},))
 T("np.stack", "out,axis1|(3,)(3,)", lambda a, b, out: np.stack([a, b], axis=1, out=out), {"a": I("X", (3,)), "b": I("X", (3,)), "out": I("X", (3, 2), "zeros")}, inplace=("out",))
+# out= with a result shape that is symmetric under the axis move: a dropped axis= cannot hide behind a shape error
+T("np.stack", "out,axis1,sym|(3,)x3", lambda a, b, c, out: np.stack([a, b, c], axis=1, out=out), {"a": I("X", (3,)), "b": I("X", (3,)), "c": I("X", (3,)), "out": I("X", (3, 3), "zeros")}, inplace=("out",))
+T("np.stack", "out,axis2,sym|(2,2)x2", lambda a, b, out: np.stack([a, b], axis=2, out=out), {"a": I("X", (2, 2)), "b": I("X", (2, 2)), "out": I("X", (2, 2, 2), "zeros")}, inplace=("out",))
+T("np.stack", "out,axis-1,dtype|(2,)x2", lambda a, b, out: np.stack([a, b], axis=-1, out=out, casting="same_kind"), {"a": I("X", (2,)), "b": I("X", (2,)), "out": I("X", (2, 2), "zeros")}, inplace=("out",))
+T("np.stack", "axis1,sym|(3,)x3", lambda a, b, c: np.stack([a, b, c], axis=1), {"a": I("X", (3,)), "b": I("X", (3,)), "c": I("X", (3,))})
 join("np.vstack", np.vstack, [(3,), (2, 3), ()], [(3,), (1, 3), ()])
 join("np.hstack", np.hstack, [(3,), (2, 3), ()], [(2,), (2, 1), ()])
 join("np.dstack", np.dstack, [(3,), (2, 3)], [(3,), (2, 3)])
@@ -165,8 +170,8 @@ T("np.linspace", "plain", lambda a, b: np.linspace(a, b, 5), {"a": I("X", ()), "
 T("np.linspace", "endpoint-false,retstep", lambda a, b: np.linspace(a, b, num=4, endpoint=False, retstep=True), {"a": I("X", ()), "b": I("X", (), "pos")})
 T("np.linspace", "array-ends,axis", lambda a, b: np.linspace(a, b, 3, axis=1), {"a": I("X", (2,)), "b": I("X", (2,), "pos")})
 T("np.linspace", "dtype", lambda a, b: np.linspace(a, b, 3, dtype=np.float32), {"a": I("X", ()), "b": I("X", (), "pos")})
-T("np.geomspace", "plain", lambda a, b: np.geomspace(a, b, 4), {"a": I("X", (), "pos"), "b": I("X", (), "pos")})
-T("np.geomspace", "endpoint-false", lambda a, b: np.geomspace(a, b, num=3, endpoint=False), {"a": I("X", (), "pos"), "b": I("X", (), "pos")})
+T("np.geomspace", "plain", lambda a, b: np.geomspace(a, b, 4), {"a": I("X", (), "pos"), "b": I("X", (), "pos")}, tol=True)
+T("np.geomspace", "endpoint-false", lambda a, b: np.geomspace(a, b, num=3, endpoint=False), {"a": I("X", (), "pos"), "b": I("X", (), "pos")}, tol=True)
 T("np.logspace", "base-q", lambda b: np.logspace(0.0, 2.0, 3, base=b), {"b": I("X", (), "pos")}, cls="other", noncov="powers of a dimensional base are not scale-covariant")
 T("np.logspace", "bare-exponents-unit-arg", lambda a: np.logspace(a, a + a, 3), {"a": I("X", (), "pos")}, cls="other", noncov="exponents must be dimensionless")
 for sh, kw in (((4,), {}), ((2, 3), {"mode": "edge"}), ((2, 3), {"mode": "reflect"}), ((4,), {"mode": "wrap"}), ((4,), {"mode": "mean"}), ((4,), {"mode": "linear_ramp"})):
